@@ -28,6 +28,8 @@ def main():
             print(r.stdout); return 2
     sh('git -C %s checkout -q -- . && git -C %s checkout -q --detach %s' % (WT, WT, head))
     r = sh('git -C %s apply %s/patch.diff' % (WT, d))
+    if r.returncode != 0:     # a later fix: commit may have changed a context line of the patch: three-way apply, then leave the index as it was
+        r = sh('git -C %s apply -3 %s/patch.diff && git -C %s reset -q' % (WT, d, WT))
     if r.returncode != 0:
         print('patch does not apply:', r.stdout)
         return 2
